@@ -95,7 +95,7 @@ Lemma decode_matches_loop_good : forall fuel r total acc,
 Proof.
   induction fuel as [|f IH]; intros r total acc Hr; cbn [decode_matches_loop].
   - apply good_ret. exact I.
-  - destruct (has_bits 3 r); [|apply good_ret; exact I].
+  - destruct (has_bits 8 r); [|apply good_ret; exact I].
     eapply good_bind0; [apply decode_match_good; assumption|].
     intros [[obs bits] r'] Hi. apply IH. exact Hi.
 Qed.
